@@ -1,4 +1,4 @@
-//go:build verif
+//go:build verif && vsched
 
 package corerad
 
@@ -12,6 +12,7 @@ import (
 	"time"
 
 	"github.com/mdlayher/corerad/verifrt/ev"
+	"github.com/mdlayher/corerad/verifrt/sdnotify"
 	"github.com/mdlayher/corerad/verifrt/vsched"
 )
 
@@ -38,8 +39,8 @@ func c08Sig(s string) os.Signal {
 func c08Cases() []c08Case {
 	var cs []c08Case
 	for _, sig := range []string{"TERM", "HUP", "INT"} {
-		for _, sc := range []string{"idle", "pending-delay", "rs-at-stop", "periodic-due", "armed-write-2", "armed-write-3-unicast", "armed-fwd-3"} {
-			if sig == "INT" && sc != "armed-write-3-unicast" && sc != "idle" {
+		for _, sc := range []string{"serve-e2e", "idle", "pending-delay", "rs-at-stop", "periodic-due", "armed-write-2", "armed-write-3-unicast", "armed-fwd-3"} {
+			if sig == "INT" && sc != "armed-write-3-unicast" && sc != "idle" && sc != "serve-e2e" {
 				continue
 			}
 			cs = append(cs, c08Case{Name: sc + "/" + sig, Sig: sig, Script: sc, Latency: strings.HasPrefix(sc, "armed")})
@@ -92,6 +93,32 @@ func c08Scenario(c c08Case) *vsched.Scenario {
 						fire()
 					}
 				}
+			}
+			if c.Script == "serve-e2e" {
+				// End to end: the real Server.Serve supervises the real advertiser and
+				// the signal arrives through the real signal task, whose ordering of
+				// "record terminate/reload" and "cancel" decides the final RA.
+				srv := NewServer(a.cctx)
+				srv.t = a.term
+				sigC := make(chan os.Signal, 1)
+				x.Spawn("serve", func() {
+					err := srv.Serve(sigC, &sdnotify.Notifier{}, []Task{a.adv})
+					a.runMu.Lock()
+					a.runRet, a.runErr, a.runAt = true, err, a.now()
+					a.runMu.Unlock()
+					vsched.Obs("run-returned", "%v", err)
+				})
+				x.Spawn("driver", func() {
+					defer a.done()
+					vsched.Sleep(time.Second)
+					vsched.Mark()
+					vsched.Obs("stop", "%s", c.Sig)
+					stopAt = a.now()
+					vsched.Send("harness:signal", sigC, c08Sig(c.Sig))
+					vsched.Sleep(5 * time.Second)
+					x.Finish()
+				})
+				return
 			}
 			x.Spawn("advertiser", a.run)
 			x.Spawn("driver", func() {
